@@ -30,7 +30,8 @@ def trace_value(v, name):
 def build_and_run(driver, defines, copy, work, tag, timeout=120):
     inc, hdr = HDR.get(copy if copy in HDR else 'include')
     exe = os.path.join(work, 'replay_%s' % tag)
-    cmd = ['g++', '-std=c++11', '-O1', '-I', inc, '-DFFSM2_HEADER=' + hdr] + ['-D' + d for d in defines] + [os.path.join(HERE, 'replay', driver), '-o', exe]
+    # indeterminate members only show their prior memory contents reliably without optimisation
+    cmd = ['g++', '-std=c++11', '-O0' if driver == 'memory_model.cpp' else '-O1', '-I', inc, '-DFFSM2_HEADER=' + hdr] + ['-D' + d for d in defines] + [os.path.join(HERE, 'replay', driver), '-o', exe]
     p = subprocess.run(cmd, stdout=subprocess.PIPE, stderr=subprocess.PIPE)
     if p.returncode != 0:
         return None, {'build_failed': p.stderr.decode()[-1500:], 'cmd': ' '.join(cmd)}
@@ -111,7 +112,11 @@ def fam_machine(v):
                                  ['NS=4', 'LIMIT=3', 'ORACLES=%d' % mask, 'DEPTH=6']]
 
 
-FAMILIES = [(r'^(root|structure|control)\.', fam_machine), (r'^c20\.bitarray\.', fam_bitarray), (r'^c13\.', fam_bitstream), (r'^c20\.(dynamic|static)\.', fam_dynarray)]
+def fam_memory(v):
+    return 'memory_model.cpp', [[]]
+
+
+FAMILIES = [(r'^c17\.', fam_memory), (r'^(root|structure|control)\.', fam_machine), (r'^c20\.bitarray\.', fam_bitarray), (r'^c13\.', fam_bitstream), (r'^c20\.(dynamic|static)\.', fam_dynarray)]
 
 
 def family(unit):
